@@ -42,7 +42,9 @@ func Full() Cfg {
 func ip(v int64) *int64     { return &v }
 func fp(v float64) *float64 { return &v }
 
-var unitLabels = []string{"bytes", "ns", "s", "chars", "pct"}
+// "dbytes" and "dsec" are custom definitions that look like built-in ones: the names (and the number of multipliers) of
+// UnitBytes / UnitDurationSeconds with other factors (decimal kB = 1000; d/H/m = 1000000/10000/100).
+var unitLabels = []string{"bytes", "ns", "s", "chars", "pct", "dbytes", "dsec"}
 
 var patterns = []string{"^[a-z]+$", "^a", "[0-9]{2}", "^$", "^.{0,3}$", "b$", "^[A-Za-z0-9_-]*$", "x|y",
 	// white space at either end of a pattern is part of the pattern
